@@ -75,8 +75,19 @@ def generate(rng, tier, idx):
         samples.append(2000 + [0, 1, 337, 999, 500][idx % 5])     # not only round batch sizes
     elif d == 2:
         samples.append(40)
+    trunc = rng.randint(1, d)
+    if d >= 4 and idx % 17 == 3:
+        # one quantity measured d times (pairwise tau about 0.97) and points far from the
+        # diagonal: every pair density is tiny but an ordinary double, the log-likelihood is
+        # an ordinary number of the order of -1000
+        table['collinear'] = 0.03
+        for k_ in ('levels', 'round', 'tie_cols'):
+            table.pop(k_, None)
+        trunc = 1
+        pts.append([0.04 if j % 2 == 0 else 0.96 for j in range(d)])
+        pts.append([0.1 if j % 2 else 0.9 for j in range(d)])
     return {'table': table, 'type': rng.choice(['center', 'direct', 'regular']),
-            'trunc': rng.randint(1, d), 'poisons': [a, b], 'pseed': rng.randrange(1000),
+            'trunc': trunc, 'poisons': [a, b], 'pseed': rng.randrange(1000),
             'seed': zoo.rand_seedspec(rng, allow_none=True), 'g0': rng.randrange(2**31),
             'points': pts, 'ops': [{'op': 'sample', 'n': n} for n in samples],
             'prefit': rng.random() < 0.3, 'prefit_trunc': rng.randint(1, d)}
